@@ -20,14 +20,14 @@ RULE = ("cases = (exact integer model with 1-4 outputs, start sequence of length
 ASSUMPTIONS = ["args=None (the function cannot route extra args to its tiled candidates)",
                "when the best improvement is in (0, tol] both 'apply it and stop' and 'stop' are accepted"]
 
-ALPHA = ["A", "C", "G", "T"]
+ALPHA = ["A", "C", "G", "T"]      # default; a case may carry its own ordering (channel order)
 
 import numba  # noqa: E402
 numba.set_num_threads(1)   # the tiling kernel is tiny; 16 threads x several worker processes only oversubscribe
 
 
 class Net(torch.nn.Module):
-    def __init__(self, L, T, seed, plant=None):
+    def __init__(self, L, T, seed, plant=None, alpha=ALPHA):
         super().__init__()
         rs = numpy.random.RandomState(seed)
         W = rs.randint(-4, 5, size=(T, 4, L)).astype("float64")
@@ -35,7 +35,7 @@ class Net(torch.nn.Module):
         if plant is not None:
             motif, pos, bonus = plant
             for j, ch in enumerate(motif):
-                W[0, ALPHA.index(ch), pos + j] += bonus
+                W[0, list(alpha).index(ch), pos + j] += bonus
         self.W = torch.nn.Parameter(torch.tensor(W))
         self.b = torch.nn.Parameter(torch.tensor(b))
 
@@ -60,20 +60,30 @@ def greedy_case(case, ctx):
         m = motifs[mi % len(motifs)]
         pos = {"last": L - len(m), "first": 0, "mid": (L - len(m)) // 2}[where]
         plant = (m, pos, case.get("bonus", 25))
-    model = Net(L, T, case["seed"], plant)
+    alpha = list(case.get("alphabet", "ACGT"))
+    model = Net(L, T, case["seed"], plant, alpha)
     model.eval()
-    X = gen.encode(seq, ALPHA, gen.DTYPES[case.get("dtype", "float64")]).unsqueeze(0)
+    X = gen.encode(seq, alpha, gen.DTYPES[case.get("dtype", "float64")]).unsqueeze(0)
+    if case.get("earlier_alphabet"):
+        # the same motif strings were used before in this process under another channel order
+        a0 = list(case["earlier_alphabet"])
+        try:
+            greedy_substitution(Net(L, T, case["seed"] + 1, None, a0).eval(), gen.encode(seq, a0, torch.float64).unsqueeze(0), motifs,
+                                torch.tensor([case["y"]], dtype=torch.float64), max_iter=1, device="cpu", alphabet=a0)
+        except Exception:  # noqa: BLE001
+            pass
+        ctx.label("after_call_with_other_alphabet")
     Xc = X.clone()
     y = torch.tensor([case["y"]], dtype=torch.float64)
     mask = torch.tensor(case["mask"], dtype=torch.bool)
     tol = float(case["tol"])
     k = case["max_iter"]
-    kw = dict(mask=mask, tol=tol, device="cpu", batch_size=case["batch_size"])
+    kw = dict(mask=mask, tol=tol, device="cpu", batch_size=case["batch_size"], alphabet=alpha)
 
     def brute(Xcur):
         cands = []
         for mo in motifs:
-            o = gen.encode(mo, ALPHA, Xcur.dtype)
+            o = gen.encode(mo, alpha, Xcur.dtype)
             for p in range(0, L - len(mo) + 1):
                 X2 = Xcur.clone()
                 X2[0, :, p:p + len(mo)] = o
@@ -90,12 +100,12 @@ def greedy_case(case, ctx):
         ibest = int(losses.argmin())
         eps = 1e-9 * (1 + abs(l0))
         require(l1 <= l0 + eps, "greedy-loss-increased", lambda: "%s: loss %r -> %r" % (tag, l0, l1))
-        s = gen.decode_strict(Xnext[0], ALPHA)
+        s = gen.decode_strict(Xnext[0], alpha)
         require(s is not None and len(s) == L, "greedy-not-one-hot", lambda: "%s: %s" % (tag, Xnext[0].tolist()))
         improvement = l0 - lbest
         changed = not torch.equal(Xnext.double(), Xcur.double())
         if changed:
-            cur = gen.decode_strict(Xcur[0], ALPHA)
+            cur = gen.decode_strict(Xcur[0], alpha)
             diff = [i for i in range(L) if s[i] != cur[i]]
             okwin = any(diff[0] >= p and diff[-1] < p + len(mo) and s[p:p + len(mo)] == mo and
                         s[:p] == cur[:p] and s[p + len(mo):] == cur[p + len(mo):]
@@ -107,7 +117,7 @@ def greedy_case(case, ctx):
         else:
             require(improvement <= tol + eps, "greedy-missed-improvement",
                     lambda: "%s: seq=%r motifs=%r: no substitution made although (%r at %d) improves the loss %r -> %r (tol %r)" % (
-                        tag, gen.decode_strict(Xcur[0], ALPHA), motifs, cands[ibest][0], cands[ibest][1], l0, lbest, tol))
+                        tag, gen.decode_strict(Xcur[0], alpha), motifs, cands[ibest][0], cands[ibest][1], l0, lbest, tol))
         best_positions = [(c[0], c[1]) for c, l in zip(cands, losses.tolist()) if abs(l - lbest) <= eps]
         if improvement > eps and all(p == L - len(mo) for mo, p in best_positions):
             ctx.label("best_is_last_position")
@@ -139,11 +149,11 @@ def greedy_case(case, ctx):
     if k >= 0 or steps < limit:
         require(torch.equal(cur.double(), Xk.double()), "greedy-multi-step-differs-from-chain",
                 lambda: "max_iter=%d tol=%r: run gave %r, chained single steps give %r" % (
-                    k, tol, gen.decode_strict(Xk[0], ALPHA), gen.decode_strict(cur[0], ALPHA)))
+                    k, tol, gen.decode_strict(Xk[0], alpha), gen.decode_strict(cur[0], alpha)))
     lk = _loss(model, Xk, y, mask).item()
     l0 = _loss(model, X, y, mask).item()
     require(lk <= l0 + 1e-9 * (1 + abs(l0)), "greedy-loss-increased", lambda: "run: %r -> %r" % (l0, lk))
-    sk = gen.decode_strict(Xk[0], ALPHA)
+    sk = gen.decode_strict(Xk[0], alpha)
     require(sk is not None and len(sk) == L, "greedy-not-one-hot", "run output")
     ctx.nt(accepted)
     ctx.label("accepted" if accepted else "declined", "max_iter_%d" % k)
@@ -162,6 +172,8 @@ def strategy(draw):
     for _ in range(nm):
         m = draw(st.one_of(st.integers(1, 8), st.sampled_from([1, 2, L])))
         motifs.append(draw(st.text(alphabet="ACGT", min_size=m, max_size=m)))
+    if nm >= 2 and draw(st.integers(0, 3)) == 0:
+        motifs[draw(st.integers(1, nm - 1))] = motifs[0]          # the same motif listed twice
     T = draw(st.integers(1, 4))
     mask = [draw(st.booleans()) for _ in range(T)]
     if not any(mask):
@@ -169,7 +181,9 @@ def strategy(draw):
     case = {"seq": seq, "motifs": motifs, "T": T, "seed": draw(st.integers(0, 10 ** 6)),
             "y": [draw(st.integers(0, 60)) for _ in range(T)], "mask": mask,
             "tol": draw(st.sampled_from([0, 0, 0.5, 1, 5])), "max_iter": draw(st.sampled_from([0, 1, 2, 3, 4, -1])),
-            "batch_size": draw(st.sampled_from([1, 3, 7, 32])), "dtype": draw(st.sampled_from(["float64", "float32", "int8"]))}
+            "batch_size": draw(st.sampled_from([1, 3, 7, 32])), "dtype": draw(st.sampled_from(["float64", "float32", "int8"])),
+            "alphabet": draw(st.sampled_from(["ACGT", "ACGT", "TGCA", "GATC"])),
+            "earlier_alphabet": draw(st.sampled_from([None, None, "ACGT", "TGCA", "CATG"]))}
     if draw(st.booleans()):
         case["plant"] = [draw(st.integers(0, nm - 1)), draw(st.sampled_from(["last", "last", "first", "mid"]))]
         case["bonus"] = draw(st.sampled_from([10, 25]))
